@@ -303,6 +303,21 @@ let () =
          Printf.printf "%s e2e ok\n" id;
          dump_tables ());
       loop ()
+    | Some "B" ->
+      (* B tag lang ltag nrtags rtag... action  (byte strings in hex): EmitAction.subst_action with the Go (0) / TypeScript (1) texts *)
+      let tag = (match next () with Some s -> s | None -> failwith "tag") in
+      let lang = next_int () in
+      let hx () = (match next () with Some s -> bytes_of_hex s | None -> failwith "hex") in
+      let ltag = hx () in
+      let n = next_int () in
+      let rtags = read_n n hx in
+      let act = hx () in
+      let str s = List.init (String.length s) (fun i -> ascii_of_int (Char.code s.[i])) in
+      let (sp, ao, am) = if lang = 0 then (str "dollarDolar.", str "Dollar[", str "].") else (str "dollarDolar.ValType.", str "Dollar[", str "].ValType.") in
+      (match subst_action sp ao am ltag rtags act with
+       | Some out -> Printf.printf "B %s ok %s\n" tag (hex_of_bytes out)
+       | None -> Printf.printf "B %s fail\n" tag);
+      loop ()
     | Some "W" ->
       (* W tag nstates nsyms cells... : Draw.draw_nodes / draw_edges on a dense matrix (the items of the nodes are not printed) *)
       let tag = (match next () with Some s -> s | None -> failwith "tag") in
